@@ -119,3 +119,25 @@ CHECKS["C05"] = dict(
         level_note="Trusts the tap-based key-state reconstruction and the reading of user lists; exactness relies on the stated generator preconditions.",
     ),
 )
+
+CHECKS["C06"] = dict(
+    harnesses={"pbt": dict(src="c06_alloc.cpp", cfg="asan", kind="rc")},
+    quick=[dict(name="pbt", harness="pbt", workers=8, args=["--n", "4000", "--maxlen", "100"])],
+    thorough=[dict(name="pbt", harness="pbt", workers=16, args=["--n", "30000", "--maxlen", "200"], timeout=10800)],
+    rule="rapidcheck histories (note on/off on 5 MIDI channels x 12 keys, CC64/66/121/123, programs with sounding delays 0/50/500/5000/40000 ms, "
+         "time advances 1 ms..5 min bounded to 10 simulated minutes, alloc-mode and arpeggio changes) on 1..8 chips x 4 allocation modes x arpeggio on/off; "
+         "for every note-on the bookkeeping snapshot before and after the call must satisfy relation (a) when a chip channel was idle and (b) when all were busy "
+         "with mixed held/key-down occupancy. Non-trivial = the history contained at least one note-on judged by (a) or (b); distinct by FNV-64 of the case.",
+    assumptions=[
+        "simulated time per history is bounded to 600 s (the property's quantifier); beyond ~13 min the ageing terms of the scoring function change the ordering",
+        "all generated programs are non-blank, so an idle channel implies the note must be accepted",
+        "the retriggered (channel,key) itself is exempt from 'keeps its chip channel'",
+    ],
+    min_nontrivial={"quick": 500, "thorough": 5000},
+    manifest=dict(
+        technique="metamorphic/relational property testing: pre/post snapshot relation on every note-on of generated histories (rapidcheck)",
+        level_text="The two clauses of the property are checked as relations between the voice-table snapshot before and after each generated note-on, over "
+                   "chip counts 1..8, all four allocation modes, arpeggio on/off and up to 10 simulated minutes.",
+        level_note="Trusts the snapshot reading of private tables; time is simulated by generating audio on the NP2 core at 8 kHz.",
+    ),
+)
